@@ -47,6 +47,8 @@ var c13bFlagOpt = map[string]string{"acct": "--account", "fee": "--fee", "tradin
 	"tax": "--tax", "int": "--interest"}
 
 func init() {
+	observers["C13.revolut2files"] = c13bObserveFiles
+	gens["C13bfiles"] = genC13bFiles
 	for _, imp := range []string{"revolut2", "revolut", "wise", "swissquote", "interactivebrokers"} {
 		imp := imp
 		observers["C13."+imp] = func(in string) string { return c13bObserve(imp, in) }
@@ -1412,7 +1414,7 @@ func c13bGenIB(r *rng, mal string) c13bCase {
 	}
 	order := []string{"Trades", "Deposits & Withdrawals", "Dividends", "Withholding Tax", "Interest"}
 	headers := map[string][]string{
-		"Trades": {"Trades", "Header", "DataDiscriminator", "Asset Category", "Currency", "Symbol", "Date/Time", "Quantity", "T. Price", "C. Price", "Proceeds", "Comm/Fee", "Basis", "Realized P/L", "Realized P/L %", "MTM P/L", "Code"},
+		"Trades":                 {"Trades", "Header", "DataDiscriminator", "Asset Category", "Currency", "Symbol", "Date/Time", "Quantity", "T. Price", "C. Price", "Proceeds", "Comm/Fee", "Basis", "Realized P/L", "Realized P/L %", "MTM P/L", "Code"},
 		"Deposits & Withdrawals": {"Deposits & Withdrawals", "Header", "Currency", "Settle Date", "Description", "Amount"},
 		"Dividends":              {"Dividends", "Header", "Currency", "Date", "Description", "Amount"},
 		"Withholding Tax":        {"Withholding Tax", "Header", "Currency", "Date", "Description", "Amount", "Code"},
@@ -1473,6 +1475,45 @@ var c13bMalKinds = []string{"date", "datefmt", "amount", "cols", "cur", "acct"}
 
 // genC13b: n well-formed statements per importer and n/3 damaged ones; args may name a subset
 // of importers.
+// op C13.revolut2files: `knut import revolut2 A.csv B.csv` (the importer takes one statement file per account);
+// input = case of A ++ " ## " ++ hex of B ++ " | " ++ items of B
+func c13bObserveFiles(in string) string {
+	parts := strings.SplitN(in, " ## ", 2)
+	c := c13bDecode(parts[0])
+	second, _ := hex.DecodeString(strings.SplitN(parts[1], " | ", 2)[0])
+	var out string
+	withTempDir(func(dir string) {
+		f1 := writeFileBytes(dir, "a.csv", c.file)
+		f2 := writeFileBytes(dir, "b.csv", second)
+		args := []string{"import", c13bUse["revolut2"]}
+		for _, k := range c13bFlagNames {
+			if v, ok := c.flags[k]; ok {
+				args = append(args, c13bFlagOpt[k], v)
+			}
+		}
+		r := runKnut(knutBin(), dir, nil, 20*time.Second, append(args, f1, f2)...)
+		pr := "na"
+		if r.class() == "OK" {
+			pr = c13bPrintCheck(dir, c, r.Stdout)
+		}
+		out = renderRun(r) + " | print=" + pr + " | rows=na"
+	})
+	return out
+}
+
+func genC13bFiles(out *caseWriter, seed uint64, n int, _ []string) error {
+	var items []caseIn
+	for i := 0; i < n; i++ {
+		r := newRng(seed, "C13b.files", i)
+		a, b := c13bGenRevolut2(r, ""), c13bGenRevolut2(r, "")
+		a.kind = "wf"
+		in := a.enc() + " ## " + hex.EncodeToString(b.file) + " | " + c13aEncItems(c13bReadItems("revolut2", b.file))
+		items = append(items, caseIn{fmt.Sprintf("C13b-files-%d-%d", seed, i), "C13.revolut2files", in})
+	}
+	out.addBatch(items)
+	return nil
+}
+
 func genC13b(out *caseWriter, seed uint64, n int, args []string) error {
 	imps := c13bImporters
 	if len(args) > 0 {
